@@ -157,6 +157,7 @@ func Quiesce()              { time.Sleep(20 * time.Millisecond) }
 func Live() int             { return 0 }
 func LiveAll() int          { return 0 }
 func ArmedTimers() int      { return 0 }
+func PendingCallbacks() int { return 0 }
 
 func CtrAdd(name string, d int) int {
 	mu.Lock()
